@@ -125,6 +125,10 @@ def handle (ws : List String) : Option String :=
     let r := JKey.unflagKey fk
     some (hexOf fk ++ " " ++ hexOf r.1 ++ " " ++ (if r.2.1 then "1" else "0") ++ " " ++
       (match r.2.2 with | some a => hexOf a | none => "none"))
+  | "io" :: "jshape" :: dims => do
+    -- shape of an array after tolist() / asarray
+    let s ← dims.mapM fun d => d.toNat?
+    some (" ".intercalate ((JShape.shapeOf (JShape.nest s)).map toString))
   | ["io", "junflag", k] => do
     let k ← ofHex k
     let r := JKey.unflagKey k
